@@ -76,6 +76,7 @@ func checkPurity(run *core.Run, m *openfgav1.AuthorizationModel) {
 			run.Violation("input-modified-by:"+name, c, "argument unchanged", why)
 			// restore so that the next entry point is judged on its own
 			m.TypeDefinitions = append([]*openfgav1.TypeDefinition{}, snap.ptrs...)
+			snap = snapModel(m) // the following entry points are judged on what they are given
 		}
 	}
 	step("TransformJSONProtoToDSL", func() { transformer.TransformJSONProtoToDSL(m) })
